@@ -41,7 +41,7 @@ func (c *Client) keepaliveLoop(ctx context.Context) error {
 	for {
 		select {
 		case <-ticker.C:
-			if err := c.Ping(); err != nil {
+			if err := c.Ping(); err != nil && err != errPingAbandoned {
 				return err
 			}
 
